@@ -3,7 +3,7 @@
 From Coq Require Import ZArith Reals Lra List Bool.
 From PW Require Import Num NumR Vec Mat Result.
 From PW.model Require Import M_rodrigues.
-From PW.proofs Require Import P_rodrigues.
+From PW.proofs Require Import P_rodrigues P_rodrigues_inv P_rodrigues_jac P_rodrigues_rt P_rodrigues_half.
 Import ListNotations.
 Local Open Scope R_scope.
 
@@ -38,6 +38,62 @@ Proof. exact fwd_zero_is_identity. Qed.
 Theorem C10_fwd_tiny_is_identity_partial : forall r : vec3 R,
   vnorm ROps r < rod_eps ROps -> rodrigues_fwd ROps r = I3 ROps.
 Proof. exact fwd_tiny_is_identity. Qed.
+
+(* ---- inverse map ------------------------------------------------------------------------------------
+   `proj` is numpy's svd projection u @ v (LAPACK, not modelled); proj_ok: it returns its input when the input is
+   already orthogonal.  rod_small is the binary64 literal 1e-5. *)
+(* vector -> matrix -> vector is the identity for 0 < |r| < pi (outside the snapping region sin|r| < 1e-5) *)
+Theorem C10_inv_of_fwd : forall proj (r : vec3 R), proj_ok proj ->
+  0 < vnorm ROps r < PI -> rod_small ROps <= sin (vnorm ROps r) ->
+  rodrigues_inv ROps proj (rodrigues_fwd ROps r) = Some r.
+Proof. exact inv_of_fwd. Qed.
+(* matrix -> vector -> matrix: every proper rotation with s = |antisymmetric part|/2 >= 1e-5 is mapped back exactly *)
+Theorem C10_fwd_of_inv_generic : forall proj (m : mat3 R), proj_ok proj ->
+  (m3mul ROps (m3transpose m) m = I3 ROps /\ m3mul ROps m (m3transpose m) = I3 ROps /\ m3det ROps m = 1) ->
+  rod_small ROps <= rod_inv_s ROps m ->
+  exists v, rodrigues_inv ROps proj m = Some v /\ rodrigues_fwd ROps v = m.
+Proof. exact fwd_of_inv_generic. Qed.
+(* exact half-turns R = 2 k k^T - I about EVERY unit axis k (all octants, zero components included): the branch that
+   recovers the axis from the diagonal with its three sign fix-ups returns a vector of length pi that maps back to R *)
+Theorem C10_half_turn_roundtrip : forall proj (k : vec3 R), proj_ok proj -> vnorm2 ROps k = 1 ->
+  let Rm := m3add ROps (m3scale ROps 2 (m3outer ROps k)) (m3scale ROps (-1) (I3 ROps)) in
+  exists v, rodrigues_inv ROps proj Rm = Some v /\ vnorm ROps v = PI /\ rodrigues_fwd ROps v = Rm.
+Proof. exact half_turn_roundtrip_vec. Qed.
+(* the returned vector is never longer than pi (all three branches, any matrix coming out of the projection) *)
+Theorem C10_inv_norm_le_pi : forall proj (m : mat3 R) v,
+  rodrigues_inv ROps proj m = Some v -> vnorm ROps v <= PI.
+Proof. intros proj m v. exact (inv_norm_le_pi (proj m) v). Qed.
+(* numeric clauses not proved (sampled by the oracle): |sin angle| < 1e-5 -- the zero branch returns 0 for angles
+   up to 1e-5 (error <= 2.5e-5 claimed by the property), the half-turn branch recovers the axis from the diagonal. *)
+
+(* ---- Jacobians -------------------------------------------------------------------------------------- *)
+(* inverse Jacobian (9,3) composed with the forward Jacobian (3,9) is the 3x3 identity: for every proper rotation
+   outside the snapping region, at the vector the inverse returns ... *)
+Theorem C10_jacobians_compose_to_identity : forall proj (m : mat3 R), proj_ok proj ->
+  (m3mul ROps (m3transpose m) m = I3 ROps /\ m3mul ROps m (m3transpose m) = I3 ROps /\ m3det ROps m = 1) ->
+  rod_small ROps <= rod_inv_s ROps m ->
+  exists v, rodrigues_inv ROps proj m = Some v /\
+    jac_compose (rodrigues_fwd_jac ROps v) (rodrigues_inv_jac ROps proj m) = [[1; 0; 0]; [0; 1; 0]; [0; 0; 1]].
+Proof. exact jacobians_compose_generic. Qed.
+(* ... hence for every rotation vector with 0 < |r| < pi, sin|r| >= 1e-5 ... *)
+Theorem C10_jacobians_compose_of_vector : forall proj (r : vec3 R), proj_ok proj ->
+  0 < vnorm ROps r < PI -> rod_small ROps <= sin (vnorm ROps r) ->
+  jac_compose (rodrigues_fwd_jac ROps r) (rodrigues_inv_jac ROps proj (rodrigues_fwd ROps r)) =
+  [[1; 0; 0]; [0; 1; 0]; [0; 0; 1]].
+Proof. exact jacobians_compose_of_vector. Qed.
+(* ... and at the identity (r = 0, the c > 0 snapping branch with its literal table) *)
+Theorem C10_jacobians_compose_at_identity : forall proj, proj_ok proj ->
+  jac_compose (rodrigues_fwd_jac ROps (V3 0 0 0)) (rodrigues_inv_jac ROps proj (I3 ROps)) =
+  [[1; 0; 0]; [0; 1; 0]; [0; 0; 1]].
+Proof. exact jacobians_compose_identity. Qed.
+(* In the half-turn branch the code returns the zero Jacobian, so the clause is false there for every vector v
+   (known finding halfturn_jacobian_zero): witness diag(1, -1, -1). *)
+Theorem C10_jacobians_compose_halfturn_refuted :
+  exists m : mat3 R,
+    (m3mul ROps (m3transpose m) m = I3 ROps /\ m3mul ROps m (m3transpose m) = I3 ROps /\ m3det ROps m = 1) /\
+    forall proj, proj_ok proj -> forall v,
+      jac_compose (rodrigues_fwd_jac ROps v) (rodrigues_inv_jac ROps proj m) <> [[1; 0; 0]; [0; 1; 0]; [0; 0; 1]].
+Proof. exact jacobians_compose_halfturn_refuted. Qed.
 
 (* ---- dispatch --------------------------------------------------------------------------------------- *)
 Theorem C10_cv2_dispatch : forall proj (a : ndarr) jac,
@@ -75,7 +131,23 @@ Proof.
   - unfold vdot; rops; cbn [vx vy vz]. ring.
 Qed.
 
+(* non-vacuity of the inverse theorems: the identity function satisfies the svd contract; a quarter turn about z is
+   a proper rotation with s = 1 >= 1e-5 *)
+Example C10_nonvacuous_inv : proj_ok (fun m => m) /\
+  (let m := M3 0 (-1) 0 1 0 0 0 0 1 in
+   m3mul ROps (m3transpose m) m = I3 ROps /\ m3det ROps m = 1 /\ rod_small ROps <= rod_inv_s ROps m).
+Proof.
+  split; [intros m _; reflexivity|]. cbv zeta. split; [|split].
+  - apply P_mat.M3_inj; P_mat.munf; ring.
+  - P_mat.munf; ring.
+  - unfold rod_inv_s, rod_antisym, rod_small, rod_half, nfrac, vnorm, vnorm2, vdot; rops; cbn [vx vy vz a00 a01 a02 a10 a11 a12 a20 a21 a22].
+    replace ((0 - 0) * (0 - 0) + (0 - 0) * (0 - 0) + (1 - -1) * (1 - -1)) with (2 * 2) by ring.
+    rewrite sqrt_square by lra. lra.
+Qed.
+
 Definition C10_all := (C10_fwd_proper, C10_fwd_fixes_axis, C10_fwd_fixes_vector, C10_fwd_turns_perp,
-  C10_fwd_zero_is_identity, C10_fwd_tiny_is_identity_partial, C10_cv2_dispatch, C10_cv2_rejects_other_shapes,
+  C10_fwd_zero_is_identity, C10_fwd_tiny_is_identity_partial, C10_inv_of_fwd, C10_fwd_of_inv_generic, C10_inv_norm_le_pi, C10_half_turn_roundtrip,
+  C10_jacobians_compose_to_identity, C10_jacobians_compose_of_vector, C10_jacobians_compose_at_identity,
+  C10_jacobians_compose_halfturn_refuted, C10_cv2_dispatch, C10_cv2_rejects_other_shapes,
   C10_r2m_accepts_three, C10_r2m_rejects_other_sizes, C10_m2r_accepts_3x3, C10_m2r_rejects_other_shapes).
 Print Assumptions C10_all.
